@@ -10,7 +10,9 @@
    The model is the parser WITH the repair "fix: comments never change the block structure the
    parser sees"; the three comment defects that used to be refuted here (column-0 comment inside
    a block, trailing comment on a column-0 header, trailing comment on elif/else/except) are now
-   covered by positive theorems; their former witnesses are kept as Examples. *)
+   covered by positive theorems; their former witnesses are kept as Examples.  The dispatch table is
+   the parser WITH the repair "fix: translate `continue` instead of silently dropping it": the three
+   `continue` kinds left DispatchSpec.known_gaps and are pinned (C07_continue_accounted). *)
 From Coq Require Import ZArith List Bool.
 From RV Require Import Base.Wire Base.Text Lang.Lex Lang.PyLayout Lang.Layout Lang.DispatchSpec Gen.Dispatch.
 From RV Require Import Proofs.LexP Proofs.RelayoutP Proofs.RoundTripP Proofs.C07P.
@@ -162,10 +164,26 @@ Theorem C07_dispatch_accounted_partial : forall r, In r table -> row_ok r = true
 Proof. exact dispatch_accounted. Qed.
 Print Assumptions C07_dispatch_accounted_partial.
 
-(* the supported kinds are translated, return/break outside their construct are rejected *)
+(* the supported kinds (since the repair of `continue`: `continue` in a for/while loop too) are
+   translated, return/break/continue outside their construct are rejected, `continue` directly in
+   the body of the main loop is translated (it ends the current pass of loop()) *)
 Theorem C07_dispatch_pinned : forall r, In r table -> row_pinned_ok r = true.
 Proof. exact dispatch_pinned. Qed.
 Print Assumptions C07_dispatch_pinned.
+
+(* (repaired; `continue` was one of the listed gaps of C07_dispatch_total_refuted, finding
+   F-C07-drop-continue / F-C01-continue-dropped) in every context `continue` is accounted for:
+   translated inside a for/while loop, translated directly in the body of the main loop, rejected
+   outside any loop - and it is no longer a listed gap, so C07_dispatch_accounted_partial no longer
+   tolerates a tree that drops it *)
+Theorem C07_continue_accounted : forall c,
+  lookup K_continue_in_while c table = Some Translated /\
+  lookup K_continue_in_for c table = Some Translated /\
+  lookup K_continue_outside_loop c table = Some (match c with MainLoop => Translated | _ => Rejected end) /\
+  known_gap K_continue_in_while c = false /\ known_gap K_continue_in_for c = false /\
+  known_gap K_continue_outside_loop c = false.
+Proof. exact continue_accounted. Qed.
+Print Assumptions C07_continue_accounted.
 
 (* the property at full strength is false: each listed gap is a statement kind outside the fixed
    set that the current parser drops without a diagnostic *)
